@@ -400,8 +400,8 @@ fn cross_plan(property: &str) -> Vec<(&'static str, u64, u64)> {
         "C02" => vec![("C02", 40, 1)],
         "C08" => vec![("C08", 16, 1)],
         "C11" => vec![("C11", 32, 1)],
-        "C13" => vec![("C13", 40, 2), ("C13t", 6, 1)],
-        "C16" => vec![("C16", 60, 2), ("C16t", 10, 1)],
+        "C13" => vec![("C13", 40, 3), ("C13t", 6, 1)],
+        "C16" => vec![("C16", 60, 4), ("C16t", 10, 1)],
         _ => vec![],
     }
 }
